@@ -346,6 +346,9 @@ func c08Check(in c08Input) (key, what string) {
 				k = "duplicate-path-import"
 			}
 		}
+		if lk := c08LayoutFinding(in.Src, out); k == "c08-bytes" && lk != "" {
+			k = lk
+		}
 		return k, "unedited decorate + import-managed restore changed the file:\n" + firstDiff(in.Src, out)
 	}
 	dec2 := decorator.NewDecoratorWithImports(token.NewFileSet(), "example.com/self", goast.WithResolver(guess.WithMap(names)))
@@ -358,6 +361,31 @@ func c08Check(in c08Input) (key, what string) {
 		return "c08-paths", "re-decorating the output gives different path annotations"
 	}
 	return "", ""
+}
+
+// c08LayoutFinding: the file is one the PLAIN round trip (no import management) already changes, in
+// exactly the same way, through one of the two layout defects recorded under C01 (go/printer's column
+// tests: an own-line comment in the column of a closing ) or }, a //line directive in column 1 of
+// indented code).  Import management is transparent there; the byte difference is C01's finding.
+func c08LayoutFinding(src, out string) string {
+	var plain bytes.Buffer
+	pm := safely(func() {
+		f, err := decorator.Parse(src)
+		if err != nil {
+			return
+		}
+		_ = decorator.Fprint(&plain, f)
+	})
+	if pm != "" || plain.String() != out {
+		return ""
+	}
+	if c01HasColumn1LineDirective(src) {
+		return "line-directive-in-indented-code"
+	}
+	if c01HasCommentAlignedWithCloser(src, out) {
+		return "own-line-comment-aligned-with-closer"
+	}
+	return ""
 }
 
 // c08CheckTypes: the same demands with the type-based identifier resolver
@@ -417,6 +445,9 @@ func c08CheckTypes(in c08Input, names map[string]string) (key, what string) {
 				k = "duplicate-path-import"
 			}
 		}
+		if lk := c08LayoutFinding(in.Src, out); k == "c08-bytes" && lk != "" {
+			k = lk
+		}
 		return k, "unedited decorate (gotypes resolver) + import-managed restore changed the file:\n" + firstDiff(in.Src, out)
 	}
 	f2, err, skip, pm := c08TypesDecorate(out)
@@ -434,6 +465,10 @@ func c08Prop(c *Ctx) {
 	srcs := append([]string{}, c08Sources...)
 	// the recorded finding duplicate-path-import
 	srcs = append(srcs, "package a\n\nimport (\n\t\"unsafe\"\n\t_ \"unsafe\"\n)\n\nvar _ = unsafe.Sizeof(0)\n")
+	// the two layout findings recorded under C01, on files with imports: the plain round trip changes
+	// them in the same way (see c08LayoutFinding)
+	srcs = append(srcs, "package a\n\nimport \"fmt\"\n\nvar (\n\ta = fmt.Sprint(1)\n\n// c\n)\n",
+		"package a\n\nimport \"fmt\"\n\nfunc f() {\n\tfmt.Println()\n//line x.go:10\n\tfmt.Println()\n}\n")
 	if b, err := format.Source([]byte(c08Positions)); err == nil {
 		srcs = append(srcs, string(b))
 	} else {
